@@ -7,11 +7,13 @@ package probe
 
 import (
 	"bytes"
+	"context"
 	"encoding/base64"
 	"encoding/json"
 	"errors"
 	"io"
 	"net/http"
+	"os"
 	"sync"
 	"time"
 
@@ -191,9 +193,31 @@ func (h handler) ServeHTTP(w http.ResponseWriter, r *http.Request) (int, error) 
 		panicWith(s.PanicWith, "zz_probe: scripted panic after writing")
 	}
 	if s.Err != "" {
-		return s.Ret, errors.New(s.Err)
+		return s.Ret, scriptedError(s.Err)
 	}
 	return s.Ret, nil
+}
+
+// scriptedError maps the names of well-known sentinel errors to the sentinels themselves (a handler
+// may hand any error value up the chain, those included); anything else becomes a plain error.
+func scriptedError(name string) error {
+	switch name {
+	case "context.Canceled":
+		return context.Canceled
+	case "context.DeadlineExceeded":
+		return context.DeadlineExceeded
+	case "io.EOF":
+		return io.EOF
+	case "io.ErrUnexpectedEOF":
+		return io.ErrUnexpectedEOF
+	case "http.ErrAbortHandler":
+		return http.ErrAbortHandler
+	case "os.ErrNotExist":
+		return os.ErrNotExist
+	case "os.ErrPermission":
+		return os.ErrPermission
+	}
+	return errors.New(name)
 }
 
 // panicWith panics with a value of the requested kind.
